@@ -124,3 +124,114 @@ func runC13locker(t *rapid.T) {
 		t.Fatalf("VIOLATION %s: [%s] %s", fail.Tag, cfg.Term, fail.Msg)
 	}
 }
+
+// runC13suspender is another schedule dimension of C13: one goroutine keeps
+// changing single cells and calling Show() while another suspends the
+// screen.  As long as the screen still owns the terminal (until Tty.Stop),
+// a Show writes only the cells that changed - Suspend must not throw the
+// logical screen away while other goroutines can still draw it.
+func runC13suspender(t *rapid.T) {
+	if hx.PastDeadline() {
+		return
+	}
+	cfg := hx.DrawConfig(t, ecmaFamily(), 8, 3)
+	cfg.W, cfg.H = rapid.IntRange(2, 8).Draw(t, "w"), rapid.IntRange(1, 3).Draw(t, "h")
+	type dr struct {
+		X, Y int
+		R    rune
+	}
+	var frames []dr
+	for i, n := 0, rapid.IntRange(1, 6).Draw(t, "nframes"); i < n; i++ {
+		frames = append(frames, dr{rapid.IntRange(0, cfg.W-1).Draw(t, "x"), rapid.IntRange(0, cfg.H-1).Draw(t, "y"), rune(rapid.IntRange('a', 'z').Draw(t, "r"))})
+	}
+	pause := rapid.IntRange(0, 6).Draw(t, "suspendafter")
+	ch := hx.DrawChooser(t, 160)
+	hx.Arm("C13")
+	defer hx.Disarm()
+	w, err := newDW(cfg, ch, "C13")
+	if err != nil {
+		t.Fatalf("HARNESS: %v", err)
+	}
+	w.S.Note(hx.Fingerprint(cfg, frames, pause))
+	writeID := 1000
+	cur := -1 // index of the frame whose Show is in progress
+	changed := map[int]bool{}
+	w.Tty.OnWrite = func(g string, b []byte) {
+		writeID++
+		w.T.Block = writeID
+		w.T.Write(b)
+		if g != "painter" || cur < 0 || !w.Tty.Started {
+			return
+		}
+		for i := 0; i < cfg.W*cfg.H && i < w.T.W*w.T.H; i++ {
+			x, y := i%cfg.W, i/cfg.W
+			if x >= w.T.W || y >= w.T.H {
+				continue
+			}
+			if y == cfg.H-1 && x == cfg.W-2 && changed[cfg.W*cfg.H-1] {
+				continue // the neighbour used to paint the bottom-right corner
+			}
+			if c := w.T.At(x, y); c.Stamp == writeID && c.Width != 0 && !changed[i] {
+				w.fail("C13/extra-write", "Show #%d, made while another goroutine was suspending the screen (the tty not yet stopped), printed %q into cell (%d,%d), which had not changed", cur, c.Text(), x, y)
+			}
+		}
+	}
+	s := w.S
+	ready := false
+	s.Spawn("app", func() {
+		if err := w.Scr.Init(); err != nil {
+			w.initErr = err
+			ready = true
+			return
+		}
+		// a baseline: every cell holds something and has been shown
+		for i := 0; i < cfg.W*cfg.H; i++ {
+			w.Scr.SetContent(i%cfg.W, i/cfg.W, '.', nil, tcell.StyleDefault)
+		}
+		w.Scr.Show()
+		ready = true
+		simrt.Go("painter", func() {
+			for i, f := range frames {
+				w.Scr.SetContent(f.X, f.Y, f.R, nil, tcell.StyleDefault)
+				changed[f.Y*cfg.W+f.X] = true
+				cur = i
+				w.Scr.Show()
+				cur = -1
+				if w.Tty.Started {
+					// that Show reached the terminal: the cell is clean again
+					// (a Show whose frame went to the stopped tty proves nothing)
+					delete(changed, f.Y*cfg.W+f.X)
+				}
+			}
+		})
+		for i := 0; i < pause; i++ {
+			simrt.Yield("suspender.wait")
+		}
+		_ = w.Scr.Suspend()
+		w.Tty.Faults.Inc("suspend_during_show")
+	})
+	s.Spawn("poller", func() {
+		simrt.Wait("ready", func() bool { return ready })
+		for w.initErr == nil && w.Scr.PollEvent() != nil {
+		}
+	})
+	s.Run()
+	if w.initErr != nil {
+		t.Fatalf("HARNESS: %v", w.initErr)
+	}
+	for _, pn := range w.Panics() {
+		w.fail("C13/panic", "panic: %s", pn)
+	}
+	hx.St.Record(s, w.Tty.Faults.Map(), func() interface{} {
+		return map[string]interface{}{"config": cfg.String(), "frames": len(frames), "preemptions": s.Preempts}
+	})
+	fail := w.Fail
+	tr, sig := s.Trace, s.Hash()
+	if err := w.Close(); err != nil {
+		t.Fatalf("HARNESS: %v", err)
+	}
+	if fail != nil && strings.HasPrefix(fail.Tag, "C13/") {
+		hx.WriteTrace("C13", fail, map[string]interface{}{"config": cfg.String(), "frames": fmt.Sprintf("%v", frames), "suspend_after": pause}, tr, nil, sig)
+		t.Fatalf("VIOLATION %s: [%s] %s", fail.Tag, cfg.Term, fail.Msg)
+	}
+}
